@@ -173,7 +173,15 @@ func one(scn int, sc Scenario, probe string, w *rec.Writer) error {
 		return ad.Start()
 	}()
 	add("started", "err", serr != nil, "errtext", fmt.Sprint(serr), "ms", int(time.Since(t0).Milliseconds()))
-	if serr == nil {
+	lingers := false
+	for _, e := range sc.Entries {
+		lingers = lingers || e.Behaviour == "linger"
+	}
+	if lingers {
+		// a plugin that closes its connection and stays: no request is issued (nothing prunes it), the runtime just stops
+		time.Sleep(400 * time.Millisecond)
+	}
+	if serr == nil && !lingers {
 		// one event for everybody, three times: a plugin that dies later dies after the first, is dropped
 		// during the second, and the third shows the order of the remaining ones
 		for i := 1; i <= 3; i++ {
